@@ -549,12 +549,42 @@ class Evaluator:
         raise OutOfSubset(f'`in` on {b.ty}')
 
     def ev_Subscript(self, n, ctx):
+        sp = self.split_index(n, ctx)
+        if sp is not None:
+            return sp
         base = self.ev(n.value, ctx)
         base = self.unwrap_opt(base, ctx)
         if isinstance(n.slice, ast.Slice):
             return self.slice(base, n.slice, ctx)
         idx = self.ev(n.slice, ctx)
         return self.index(base, idx, ctx)
+
+    def split_index(self, n, ctx):
+        """s.split(sep)[k] / s.split(sep, 1)[k] for a one-character constant sep and k in {0, 1}, through index-of"""
+        v = n.value
+        if not (isinstance(v, ast.Call) and isinstance(v.func, ast.Attribute) and v.func.attr == 'split' and 1 <= len(v.args) <= 2
+                and isinstance(v.args[0], ast.Constant) and isinstance(v.args[0].value, str) and len(v.args[0].value) == 1
+                and isinstance(n.slice, ast.Constant) and n.slice.value in (0, 1)):
+            return None
+        maxsplit = None
+        if len(v.args) == 2:
+            if not (isinstance(v.args[1], ast.Constant) and v.args[1].value == 1):
+                return None
+            maxsplit = 1
+        s_ = self.ev(v.func.value, ctx)
+        if s_.ty != STR:
+            return None
+        sep = z3.StringVal(v.args[0].value)
+        n_ = z3.Length(s_.t)
+        i = z3.IndexOf(s_.t, sep, 0)
+        if n.slice.value == 0:
+            return V(STR, z3.If(i < 0, s_.t, z3.SubString(s_.t, 0, i)))
+        ctx.exc('IndexError', i < 0)
+        rest = z3.SubString(s_.t, i + 1, n_ - i - 1)
+        if maxsplit == 1:
+            return V(STR, rest)
+        j = z3.IndexOf(s_.t, sep, i + 1)
+        return V(STR, z3.If(j < 0, rest, z3.SubString(s_.t, i + 1, j - i - 1)))
 
     def index(self, base, idx, ctx):
         if isinstance(base.ty, TTuple):
